@@ -221,6 +221,7 @@ fn chain_case(args: &Args, rng: &mut Rng, out: &mut Streams, dist: &mut Dist, sc
       let runes = ix.index.runes().unwrap();
       g.rune_ids = runes.iter().map(|(id, _)| *id).collect();
       g.rune_names = runes.iter().map(|(_, e)| e.spaced_rune.rune.0).collect();
+      g.runic = ix.index.get_rune_balances().unwrap().into_iter().collect();
     }
     let evs = drain_events(&mut ix);
     if b >= premine {
